@@ -44,6 +44,9 @@ let parse_aop toks = match toks with
   | ["app"; i; v] -> AAppend (n_ i, z_ v)
   | ["appa"; i; j] -> AAppendArr (n_ i, n_ j)
   | "appb" :: i :: vs -> AAppendBuf (n_ i, zs vs)
+  | ["appr"; i; start; count; step] ->      (* append(buf, count) with buf = start, start + step, ... *)
+      let a = int_of_string start and d = int_of_string step in
+      AAppendBuf (n_ i, List.init (max 0 (int_of_string count)) (fun k -> z_of_int (a + k * d)))
   | ["remi"; i; k] -> ARemoveIdx (n_ i, n_ k)
   | ["rem"; i; k] -> ARemoveIt (n_ i, n_ k)
   | ["remf"; i] -> ARemoveFront (n_ i)
@@ -73,7 +76,15 @@ let parse_pop isrec toks = match toks with
   | _ -> failwith ("bad poollist op: " ^ String.concat " " toks)
 
 let zstr v = string_of_int (int_of_z v)
-let vals_str l = String.concat "" (List.map (fun v -> zstr v ^ " ") l)
+(* contents; beyond 4096 elements: `#<hash> <first three> .. <last three>` (the harness prints the same) *)
+let vals_str l =
+  let n = List.length l in
+  if n <= 4096 then String.concat "" (List.map (fun v -> zstr v ^ " ") l)
+  else begin
+    let h = List.fold_left (fun h v -> (h * 31 + ((int_of_z v) land 0xffffffff)) land 0x7fffffff) 0 l in
+    let a = Array.of_list l in
+    Printf.sprintf "#%d %s %s %s .. %s %s %s " h (zstr a.(0)) (zstr a.(1)) (zstr a.(2)) (zstr a.(n - 3)) (zstr a.(n - 2)) (zstr a.(n - 1))
+  end
 let front_back l = match l with
   | [] -> "f - b -"
   | _ -> Printf.sprintf "f %s b %s" (zstr (List.hd l)) (zstr (List.nth l (List.length l - 1)))
@@ -101,7 +112,7 @@ let ints l = String.concat "" (List.map (fun s -> string_of_int (int_of_nat s) ^
 (* Array: the storage-level machine (sstep: allocations, constructed / raw cells, checked access) is what is run and
    printed; the value-level model (astep) runs beside it and must agree after every operation (theorem
    arraymem_step_safe_refines says it always does, and that the machine never reports an access error) *)
-type mstate = SL of lworld | SP of lworld | SA of sworld * aworld
+type mstate = SL of lworld | SP of lworld | SA of sworld * aworld | SB of sstate
 
 let aerr_str = function
   | ENull -> "segv" | EFreed -> "uaf" | EOob -> "oob" | ERaw -> "ub" | ETwice -> "ub"
@@ -114,13 +125,15 @@ let marr_eq (a : marr) (b : marr) =
 let () =
   let mode = Sys.argv.(1) and file = Sys.argv.(2) in
   let key_of kind = if kind = "kv" then key_kv else key_full in
-  let cont = ref "list" and key = ref key_full and isrec = ref false and probed = ref false in
+  let cont = ref "list" and key = ref key_full and isrec = ref false and probed = ref false and big = ref false in
   if mode = "model" then
     run_cases file
       (fun cfg ->
-         (match cfg with c :: k :: _ -> cont := c; key := key_of k; isrec := (k = "rec"); probed := (k = "obj" || k = "kv")
+         (match cfg with c :: k :: _ -> cont := c; key := key_of k; isrec := (k = "rec"); probed := (k = "obj" || k = "kv" || k = "wide");
+                                        big := List.mem "big" cfg
                          | _ -> failwith "case config");
          match !cont with
+         | "list" when !big -> SB (sinit (nat_of_int nv))
          | "list" -> SL (linit (nat_of_int nv))
          | "plist" -> SP (linit (nat_of_int nv))
          | _ -> SA (swinit (nat_of_int nv), ainit (nat_of_int nv)))
@@ -139,6 +152,13 @@ let () =
               measure (no sort, element kind int: its operator< is built in) *)
            emit (Printf.sprintf "%s | %s | %s r %s k %d" (res_str (lobs_res w r) seqs (var_of toks)) pub inn rs depth) in
          match st with
+         | SB s ->
+             (* case config `big` on List (2^16 nodes and more): the node-level model, whose slot ids are unary numbers,
+                cannot follow; what is printed is the reference sequence, and the internal section is left open *)
+             let (s', r) = lspec_fun !key s (parse_lop toks) in
+             let pub = String.concat " " (List.mapi (fun i l -> dump_var "L" i (List.length l) l "" " rev ok acc ok") s') in
+             emit (Printf.sprintf "%s | %s | ??*" (res_str r s' (var_of toks)) pub);
+             SB s'
          | SL w ->
              let op = parse_lop toks in
              let depth = match op with
@@ -146,6 +166,16 @@ let () =
                | _ -> 0 in
              let (w', r) = lstep !key w op in node_line "L" w' r depth; SL w'
          | SP w -> let (w', r) = pstep w (parse_pop !isrec toks) in node_line "P" w' r 0; SP w'
+         | SA (sw, w) when !big ->
+             (* case config `big` (arrays of 2^16 elements and more): the storage-level machine reads and writes a
+                cell in time proportional to its index and cannot follow; the value-level model alone is run *)
+             let (w', r) = astep w (parse_aop toks) in
+             let seqs = List.map (fun (a : marr) -> a.items) w' in
+             let pub = String.concat " " (List.mapi (fun i (a : marr) ->
+                 dump_var "A" i (List.length a.items) a.items (dec_of_z a.cap) " acc ok") w') in
+             let inn = String.concat " " (List.mapi (fun i (a : marr) -> Printf.sprintf "A%d a %d" i (if a.allocated then 1 else 0)) w') in
+             emit (Printf.sprintf "%s | %s | %s" (res_str (aobs_res r) seqs (var_of toks)) pub inn);
+             SA (sw, w')
          | SA (sw, w) ->
              let op = parse_aop toks in
              let (w', r) = astep w op in
@@ -180,6 +210,9 @@ let () =
          let letter, cap, tail = match !cont with
            | "list" -> "L", "", " rev ok acc ok" | "plist" -> "P", "", " rev ok acc ok" | _ -> "A", "?", " acc ok" in
          let pub = String.concat " " (List.mapi (fun i l -> dump_var letter i (List.length l) l cap tail) s') in
-         emit (Printf.sprintf "%s | %s" (res_str r s' (var_of toks)) pub);
+         (* a call the statement does not speak about (SeqSpec.atext: Array::remove(index) with index >= size()): nothing is
+            specified; the check's judge stops judging the case at this line *)
+         if !cont = "array" && not (atext (ssize s) (nat_of_int (List.length s)) (parse_aop toks)) then emit "open"
+         else emit (Printf.sprintf "%s | %s" (res_str r s' (var_of toks)) pub);
          s')
       (fun _ -> emit "end live 0")
